@@ -153,7 +153,14 @@ def c_to_json(c):
     }
 
 
+REPLAY_MEMO = {}     # only filled while a history-dependent replay runs: json text -> the live object with that history
+
+
 def c_from_json(j):
+    if REPLAY_MEMO:
+        k = json.dumps(j, sort_keys=True)
+        if k in REPLAY_MEMO:
+            return REPLAY_MEMO[k]
     c = cg.Circuit(name=j["name"])
     for n, t, o in j["nodes"]:
         attrs = {}
@@ -224,9 +231,16 @@ def call(f, *a, **k):
 
 class Driver:
     def __init__(self):
-        if not os.path.exists(DRIVER):
-            raise RuntimeError(f"driver not built: {DRIVER}")
-        self.p = subprocess.Popen([DRIVER], stdin=subprocess.PIPE, stdout=subprocess.PIPE, text=True, bufsize=1)
+        # start under the build lock: a concurrent ./check may be relinking the driver right now
+        import fcntl
+        with open(os.path.join(VERIF, ".build.lock"), "w") as lf:
+            fcntl.flock(lf, fcntl.LOCK_EX)
+            try:
+                if not os.path.exists(DRIVER):
+                    raise RuntimeError(f"driver not built: {DRIVER}")
+                self.p = subprocess.Popen([DRIVER], stdin=subprocess.PIPE, stdout=subprocess.PIPE, text=True, bufsize=1)
+            finally:
+                fcntl.flock(lf, fcntl.LOCK_UN)
         self.n = 0
 
     def ask(self, req):
